@@ -55,6 +55,7 @@ type gtype struct {
 	lean   string // Lean name of a struct type
 	fields []field
 	tuple  []*gtype
+	pkg    *pkgInfo // package that declares a struct type (methods are looked up there)
 }
 
 var (
@@ -377,7 +378,7 @@ func (c scopeCtx) resolveType(x ast.Expr, prefix string) (*gtype, error) {
 			if t, ok := c.p.structs[x.Name]; ok {
 				return t, nil
 			}
-			t := &gtype{k: kStruct, name: x.Name, lean: prefix + x.Name}
+			t := &gtype{k: kStruct, name: x.Name, lean: prefix + x.Name, pkg: c.p}
 			for _, fl := range st.Fields.List {
 				if len(fl.Names) == 0 {
 					return nil, fmt.Errorf("struct %s: embedded field", x.Name)
@@ -450,7 +451,12 @@ func (c scopeCtx) resolveType(x ast.Expr, prefix string) (*gtype, error) {
 			return nil, fmt.Errorf("unknown type %s.%s", id.Name, x.Sel.Name)
 		}
 		if _, isStruct := ts.Type.(*ast.StructType); isStruct {
-			return nil, fmt.Errorf("struct type %s.%s of another package", id.Name, x.Sel.Name)
+			// a struct of another package is usable once that package's functions have been translated
+			// (its Lean structure then exists in the module of that package, which must be imported)
+			if st, ok := q.structs[x.Sel.Name]; ok {
+				return st, nil
+			}
+			return nil, fmt.Errorf("struct type %s.%s of another package has not been translated yet (translate a function of that package using it in an earlier facts.d entry)", id.Name, x.Sel.Name)
 		}
 		return scopeCtx{q, q.tfile[x.Sel.Name]}.resolveType(ts.Type, prefix)
 	}
